@@ -123,6 +123,7 @@ type runA struct {
 	LastErr   error
 	Succeeded bool
 	Times     []time.Duration
+	Panicked  string
 }
 
 func execA(t *testing.T, p polA, api, ctx0 string, prefix []sym) (r runA) {
@@ -212,12 +213,19 @@ func execA(t *testing.T, p polA, api, ctx0 string, prefix []sym) (r runA) {
 			r.LastErr = e
 			return e
 		}
-		switch api {
-		case "RetryIf":
-			r.Err = retry.RetryIf(ctx, logr.Discard(), p.cfg(), fn, "c14", func(err error) bool { return errors.Is(err, errRetriable) })
-		default:
-			r.Err = retry.RetryOnError(ctx, logr.Discard(), p.cfg(), fn, "c14", errRetriable)
-		}
+		func() {
+			defer func() {
+				if pv := recover(); pv != nil { // the caller receives neither nil nor the last error
+					r.Panicked = fmt.Sprint(pv)
+				}
+			}()
+			switch api {
+			case "RetryIf":
+				r.Err = retry.RetryIf(ctx, logr.Discard(), p.cfg(), fn, "c14", func(err error) bool { return errors.Is(err, errRetriable) })
+			default:
+				r.Err = retry.RetryOnError(ctx, logr.Discard(), p.cfg(), fn, "c14", errRetriable)
+			}
+		}()
 		r.CtxErr = ctx.Err()
 	})
 	return
@@ -262,6 +270,9 @@ func errKind(err error) string {
 func evalA(p polA, ctx0 string, r runA) (out []finding) {
 	pcFull := polClass(p) // kind and min=zero|positive: only where a zero wait matters (attempt after a stop condition)
 	pc := pcFull[:strings.Index(pcFull, ":min=")]
+	if r.Panicked != "" {
+		return []finding{{"retry:panic:" + pcFull, "the call panicked: " + r.Panicked}}
+	}
 	if r.Over {
 		if r.OverAfter == "bound" {
 			out = append(out, finding{"retry:too-many-attempts:" + pc, fmt.Sprintf("invocation %d with a bound of %d", r.M, p.bound())})
